@@ -436,3 +436,15 @@ Qed.
 (** verdict of the automaton on an arbitrary token string (used for the malformed attributes of the corpus) *)
 Definition tokens_accepted (kw hc : bool) (toks : list tok) : bool :=
   match parse_attr kw hc toks with Some a => match a_ranges a with [] => false | _ => true end | None => false end.
+
+(** boolean equality of automaton states (used to print where a re-translation of the macro's transition
+    functions first differs from the functions above; see SrcSlice.v) *)
+Definition ap_eqb (x y : ap) : bool :=
+  match x, y with
+  | Reset, Reset | ResetOnlyRange, ResetOnlyRange | StrideStarted, StrideStarted | StrideEq, StrideEq
+  | ARead, ARead | AWrite, AWrite | AReadWrite, AReadWrite => true
+  | GotLower a, GotLower b | GotDot1 a, GotDot1 b | GotDot2 a, GotDot2 b | GotEq a, GotEq b
+  | StrideDone a, StrideDone b => a =? b
+  | GotBoth a b, GotBoth c d => (a =? c) && (b =? d)
+  | _, _ => false
+  end.
